@@ -216,6 +216,53 @@ Theorem C02_commit_sigs_match_git_partial : forall raw c,
 Proof. intros raw c Hd Hg Ht. split; [exact (sig_eq_pbsh _ _ Hd Hg Ht)|exact (sig256_eq_pbsh _ _ Hd Hg Ht)]. Qed.
 Print Assumptions C02_commit_sigs_match_git_partial.
 
+(* ---- the commit-level statement in one piece: when ALL boolean clauses hold,
+   EVERY decoded field of the commit — tree, parents, author and committer
+   identities with dates and zones, encoding, extra headers, both signatures,
+   message — is the one git itself reports / extracts ---- *)
+Definition commit_all_clauses (raw : bytes) : bool :=
+  let a := commit_agree_of raw in
+  ca_parents a && ca_position a && ca_aperson a && ca_adate a && ca_cperson a && ca_cdate a && ca_encoding a &&
+  extras_guard raw && commit_sig_guard raw && hdr_terminated raw.
+
+Theorem C02_commit_all_fields_match_git_partial : forall raw c g,
+  decode_commit raw = Ok c -> git_log_fields raw = GOk g -> commit_all_clauses raw = true ->
+  hex_encode (c_tree c) = gl_tree g /\
+  map hex_encode (c_parents c) = gl_parents g /\
+  (id_name (c_author c), id_email (c_author c), go_date (c_author c)) = (gl_an g, gl_ae g, gl_ad g) /\
+  (id_name (c_committer c), id_email (c_committer c), go_date (c_committer c)) = (gl_cn g, gl_ce g, gl_cd g) /\
+  enc_agrees (c_enc c) (gl_enc g) /\
+  c_extra c = map extra_norm (git_extras raw) /\
+  c_sig c = snd (fst (git_commit_payload_fmt SHA1 raw)) /\
+  c_sig256 c = snd (fst (git_commit_payload_fmt SHA256 raw)) /\
+  (forall m, gl_body g = Some m -> c_msg c = m).
+Proof.
+  intros raw c g Hd Hg H. unfold commit_all_clauses in H.
+  repeat (apply andb_true_iff in H; destruct H as [H ?]).
+  destruct (commit_fields_match_git raw c g Hd Hg) as [F1 [F2 [F3 [F4 [F5 F6]]]]].
+  repeat split; auto.
+  - now apply extras_match_git.
+  - now apply sig_eq_pbsh.
+  - now apply sig256_eq_pbsh.
+Qed.
+Print Assumptions C02_commit_all_fields_match_git_partial.
+
+(* non-vacuity: a commit with a parent, a '>' in the author name, an encoding,
+   a multi-line mergetag, both signature headers and a later extra header
+   passes all clauses *)
+Example C02_commit_all_clauses_nonvacuous :
+  let raw := str "tree 4b825dc642cb6eb9a060e54bf8d69288fbee4904" ++ [10] ++
+             str "parent 1111111111111111111111111111111111111111" ++ [10] ++
+             str "author a>b <x@y> 5 +0100" ++ [10] ++ str "committer C <c@d> 7 -0130" ++ [10] ++
+             str "encoding latin1" ++ [10] ++ str "mergetag object 1" ++ [10] ++ str " type commit" ++ [10] ++
+             str "gpgsig -----BEGIN PGP SIGNATURE-----" ++ [10] ++ str " x" ++ [10] ++
+             str "gpgsig-sha256 -----BEGIN PGP SIGNATURE-----" ++ [10] ++ str " y" ++ [10] ++
+             str "x-k v" ++ [10; 10] ++ str "msg" ++ [10] in
+  commit_all_clauses raw = true /\
+  exists c g, decode_commit raw = Ok c /\ git_log_fields raw = GOk g /\
+              List.length (c_parents c) = 1%nat /\ List.length (c_extra c) = 2%nat /\ c_sig c <> [] /\ c_sig256 c <> [].
+Proof. vm_compute. split; [reflexivity|]. do 2 eexists. repeat split; discriminate. Qed.
+
 (* ---- PARTIAL, tag level (git = `git for-each-ref`: tag.c parse_tag_buffer,
    ref-filter.c find_wholine / copy_name / copy_email / grab_date /
    find_subpos): for EVERY stored tag that go-git decodes and git parses,
